@@ -1,9 +1,11 @@
 package zv
 
 import (
+	"fmt"
 	"go/constant"
 	"go/token"
 	"go/types"
+	"math"
 	"regexp"
 	"sort"
 	"strings"
@@ -144,54 +146,56 @@ func checkC18(c *Ctx) {
 	// ---------------- R18.2 ----------------
 	lvf := c.Func(SlogPath, "convertSlogLevel")
 	if c.Anchor("R18.2", "zapslog.convertSlogLevel", lvf != nil) {
-		type arm struct {
-			thr  int64
-			z    int64
-			open bool // default arm
+		// evaluated: the map is applied to every slog level in [-2048, 2048] and to the extremes
+		it := NewInterp(c)
+		var pts []int64
+		for l := int64(-2048); l <= 2048; l++ {
+			pts = append(pts, l)
 		}
-		var arms []arm
-		okForm := true
-		var why string
-		reGE := regexp.MustCompile(`^l >= (-?\d+)$`)
-		reLT := regexp.MustCompile(`^l < (-?\d+)$`)
-		for _, r := range Returns(lvf) {
-			z, isC := ConstInt(RetVals(r)[0])
-			if !isC {
-				okForm, why = false, "returned level "+Desc(RetVals(r)[0])+" is not a constant per threshold arm"
-				continue
+		pts = append([]int64{math.MinInt64, math.MinInt32}, pts...)
+		pts = append(pts, math.MaxInt32, math.MaxInt64)
+		var zs []int64
+		evalErr := ""
+		for _, l := range pts {
+			r, err := it.Run(lvf, []IVal{IInt(l)})
+			if err != nil || len(r) != 1 || r[0].K != ivInt {
+				evalErr = fmt.Sprintf("convertSlogLevel(%d): %v %v", l, r, err)
+				break
 			}
-			a := arm{z: z, open: true}
-			for _, at := range AtomStrings(Guards(r)) {
-				if m := reGE.FindStringSubmatch(at); m != nil {
-					a.thr, _ = parseInt(m[1])
-					a.open = false
-				} else if reLT.MatchString(at) {
-				} else {
-					okForm, why = false, "guard "+at+" is not a threshold comparison of the slog level"
+			zs = append(zs, r[0].I)
+		}
+		if evalErr != "" {
+			c.Und("R18.2", lvf.String(), "monotone", lvf.Pos(), "cannot evaluate the level map: %s", evalErr)
+		} else {
+			mono := ""
+			for i := 1; i < len(zs); i++ {
+				if zs[i] < zs[i-1] {
+					mono = fmt.Sprintf("slog level %d maps to %d but %d maps to %d", pts[i-1], zs[i-1], pts[i], zs[i])
 				}
 			}
-			arms = append(arms, a)
+			anch := ""
+			for _, n := range []string{"Debug", "Info", "Warn", "Error"} {
+				sl, ok1 := c.ConstVal("log/slog", "Level"+n)
+				zl, ok2 := c.ConstVal(CorePath, n+"Level")
+				if !ok1 || !ok2 {
+					anch += "missing constant " + n + "; "
+					continue
+				}
+				r, err := it.Run(lvf, []IVal{IInt(sl)})
+				if err != nil || len(r) != 1 || r[0].I != zl {
+					anch += fmt.Sprintf("slog.Level%s(%d) maps to %v, want %d; ", n, sl, r, zl)
+				}
+			}
+			dz, _ := c.ConstVal(CorePath, "DebugLevel")
+			ez, _ := c.ConstVal(CorePath, "ErrorLevel")
+			rng := ""
+			for i, z := range zs {
+				if z < dz || z > ez {
+					rng = fmt.Sprintf("slog level %d maps to %d, outside [Debug, Error] (slog has no level that may panic or exit)", pts[i], z)
+				}
+			}
+			c.Check(mono == "" && anch == "" && rng == "", "R18.2", lvf.String(), "monotone", lvf.Pos(), "evaluated on %d slog levels: the map is non-decreasing, sends slog's four named levels to zap's, and stays within [Debug, Error] %s %s %s", len(pts), mono, anch, rng)
 		}
-		sort.Slice(arms, func(i, j int) bool {
-			if arms[i].open != arms[j].open {
-				return !arms[i].open
-			}
-			return arms[i].thr > arms[j].thr
-		})
-		mono := len(arms) >= 2
-		nOpen := 0
-		for i := range arms {
-			if arms[i].open {
-				nOpen++
-			}
-			if i > 0 && arms[i].z > arms[i-1].z {
-				mono = false
-			}
-			if i > 0 && !arms[i].open && arms[i].thr >= arms[i-1].thr {
-				mono = false
-			}
-		}
-		c.Check(okForm && mono && nOpen == 1, "R18.2", lvf.String(), "monotone", lvf.Pos(), "levels map by descending thresholds to non-increasing zap levels with one catch-all arm: %v %s", arms, why)
 		// shared
 		en := c.Method(SlogPath, "Handler", "Enabled")
 		hd := c.Method(SlogPath, "Handler", "Handle")
